@@ -1,5 +1,7 @@
 """C06: ending a word erases every trace of it; the session flag tells the truth."""
+import clauses
 import obl_fixed
+import obl_phonetic
 
 
 def run(c):
@@ -7,3 +9,6 @@ def run(c):
         obl_fixed.obl_session_fixed(c, 2, 2, 1, budget_s=900)
     else:
         obl_fixed.obl_session_fixed(c, 3, 3, 2, budget_s=3000)
+    c.only_clauses = clauses.GLUE_C06
+    obl_phonetic.obl_phonetic_glue(c, 2 if c.tier == "quick" else 3, budget_s=900)
+    c.only_clauses = None
